@@ -160,7 +160,15 @@ class SparselyBin(Factory, Container):
 
     @inheritdoc(Container)
     def zero(self):
-        return SparselyBin(self.binWidth, self.quantity, self.value, self.nanflow.zero(), self.origin)
+        return self._likeSelf(SparselyBin(self.binWidth, self.quantity, self.value, self.nanflow.zero(), self.origin))
+
+    def _likeSelf(self, out):
+        # a container without a value template (made by ``ed`` or from JSON) knows its content type and the name of
+        # its content's quantity only through these attributes; keep them while it is empty
+        if self.value is None:
+            out.contentType = self.contentType
+            out.binsName = getattr(self, "binsName", None)
+        return out
 
     @inheritdoc(Container)
     def __add__(self, other):
@@ -181,6 +189,7 @@ class SparselyBin(Factory, Container):
                 self.nanflow + other.nanflow,
                 self.origin,
             )
+            self._likeSelf(out)
             out.entries = self.entries + other.entries
             out.bins = {}
             for i, v in self.bins.items():
@@ -462,7 +471,7 @@ class SparselyBin(Factory, Container):
             else:
                 binsName = None
         else:
-            binsName = None
+            binsName = getattr(self, "binsName", None)
 
         if len(self.bins) > 0:
             bins_type = list(self.bins.values())[0].name
@@ -554,6 +563,7 @@ class SparselyBin(Factory, Container):
                 raise JsonFormatException(json, "SparselyBin.origin")
 
             out = SparselyBin.ed(binWidth, entries, json["bins:type"], bins, nanflow, origin)
+            out.binsName = binsName
             out.quantity.name = nameFromParent if name is None else name
             return out.specialize()
 
